@@ -410,7 +410,9 @@ def sort_issues(issues, reverse=False):
             if key in int_sort_list:
                 result.append(d.get(key, -1))
             else:
-                result.append(d.get(key, ""))
+                # Columns of a file without header are numbered: a number never meets a text in a comparison.
+                value = d.get(key, "")
+                result.append((value, "") if isinstance(value, int) else (-1, str(value)))
         return tuple(result)
 
     issues = sorted(issues, key=_get_keys, reverse=reverse)
